@@ -44,7 +44,8 @@ except ImportError:
         SplitResult,
     )
 
-MISTAKES_RE = re.compile(r"&amp(?:%3B|;)", re.I)
+# NOTE: the letters may themselves be escaped ("&%61mp;")
+MISTAKES_RE = re.compile(r"&(?:a|%[46]1)(?:m|%[46]D)(?:p|%[57]0)(?:%3B|;)", re.I)
 
 # NOTE: one of the kwargs below is not so aptly named quote...
 unshadowed_quote = quote
